@@ -36,6 +36,21 @@ def getters(mod):
     return sorted(out, key=lambda g: (order.get(g, 1), g))
 
 
+def getter_options(f):
+    """Keyword options of a getter: booleans flipped, a few values for integer year windows."""
+    out = []
+    try:
+        params = list(inspect.signature(f).parameters.values())[1:]
+    except (TypeError, ValueError):
+        return out
+    for p_ in params:
+        if isinstance(p_.default, bool):
+            out.append({p_.name: not p_.default})
+        elif isinstance(p_.default, int) and 'year' in p_.name:
+            out += [{p_.name: y} for y in (1900, 1985, 2000, 2020)]
+    return out
+
+
 def with_raw_fields(mod, name, v, mraw, draw):
     """v with the raw two-digit month / day FIELDS set (values outside any calendar, e.g. 93 or 87) and the tail searched for
     a valid completion: finds numbers whose date fields a lax validator reduces silently."""
@@ -187,7 +202,12 @@ def worker(unit, emit):
                             continue
                     for g in gs:
                         r = lib.call(getattr(mod, g), x)
-                        evs.append({'m': name, 'g': g, 'v': lib.cps(v), 'x': lib.cps(x), 'r': rec(r), 'site': r['site']})
+                        evs.append({'m': name, 'g': g, 'v': lib.cps(v), 'x': lib.cps(x), 'r': rec(r), 'site': r['site'], 'opt': False})
+                        # the getter's own keyword options (century windows, allow_future, ...): totality only
+                        if x == v:
+                            for kw in getter_options(getattr(mod, g)):
+                                r2 = lib.call(getattr(mod, g), x, **kw)
+                                evs.append({'m': name, 'g': g, 'v': lib.cps(v), 'x': lib.cps(x), 'r': rec(r2), 'site': r2['site'], 'opt': True})
             if clk:
                 with ac.clock(clk):
                     if mod.is_valid(v) is not True:
